@@ -951,6 +951,10 @@ def dead_peer_disconnect_case(ctx, case):
                 parked.set()
                 release.wait(20)
         conn.register_packet_listener(park, Packet)
+        late_out = []
+        conn.register_packet_listener(
+            lambda p: late_out.append(p.message), sb.play.ChatPacket,
+            outgoing=True)
         try:
             conn.connect()
             if not parked.wait(20):
@@ -980,6 +984,12 @@ def dead_peer_disconnect_case(ctx, case):
     if raised is not None:
         ctx.fail('dead_peer', 'S3-disconnect-raised', case, exc=raised)
         world.kill_all()
+        return
+    if late_out:
+        # (C13: 'ordinary outgoing listeners run after it has been written' -
+        # nothing can be written to a peer that is gone)
+        ctx.fail('dead_peer', 'D3-late-outgoing-listener-for-unwritten-'
+                 'packet', case, late_out[:4], [])
         return
     if state != 'done':
         ctx.fail('dead_peer', 'S4-thread-never-terminates-after-disconnect',
